@@ -245,20 +245,6 @@ class World:
             return FixedTimezone(key)
         if isinstance(key, (tuple, list)) and key[0] == "file":
             return Timezone.from_file(io.BytesIO(key[1]))
-        z = ZONE_HISTORY
-        if z["replay"] is not None:
-            # reference evaluation: the zone cache is cleared between exactly those harness lookups
-            # of this op between which it was cleared in the simulation (see ZONE_HISTORY)
-            k = z["k"]
-            z["k"] = k + 1
-            e = z["replay"][k] if k < len(z["replay"]) else z["last"]
-            if e != z["last"]:
-                Timezone.clear_cache()
-                z["last"] = e
-        else:
-            lst = z["log"].get(threading.get_ident())
-            if lst is not None:
-                lst.append(z["epoch"])
         return pendulum.timezone(key)
 
     # ---------------------------------------------------------------- caches
@@ -320,11 +306,36 @@ class World:
 # Whether two values of one named zone share their tzinfo *object* is decided by zoneinfo's cache,
 # i.e. by history (a clear_cache(), a restart).  Results may legitimately depend on it where no
 # property speaks (components of an interval between the two occurrences of one wall time), so the
-# history of the cache is part of what the reference evaluation replays: every zone lookup made
-# by the harness while it builds an op's inline arguments logs the cache generation ("epoch") it
-# happened in (entry 0: the generation the op was invoked in); the reference evaluation clears the
+# history of the cache is part of what the reference evaluation replays: every lookup of a named
+# zone made during an op (Timezone.__new__ is wrapped below - from outside, /repo is untouched)
+# logs the cache generation ("epoch") it happened in (entry 0: the generation the op was invoked in); the reference evaluation clears the
 # cache before the k-th lookup iff the epoch changed there.  epoch: bumped by the nemesis clear and by restarts.  log: thread ident -> list.
 ZONE_HISTORY = {"epoch": 0, "log": {}, "replay": None, "k": 0, "last": 0}
+
+
+_tz_new_orig = Timezone.__new__
+
+
+def _tz_new(cls, key):
+    """every lookup of a named zone - by the harness or by pendulum itself (instance() of a foreign
+    tzinfo, in_tz('Name'), unpickling) - passes here: log its cache generation in the simulation,
+    replay the clears in a reference evaluation"""
+    z = ZONE_HISTORY
+    if z["replay"] is not None:
+        k = z["k"]
+        z["k"] = k + 1
+        e = z["replay"][k] if k < len(z["replay"]) else z["last"]
+        if e != z["last"]:
+            Timezone.clear_cache()
+            z["last"] = e
+    else:
+        lst = z["log"].get(threading.get_ident())
+        if lst is not None:
+            lst.append(z["epoch"])
+    return _tz_new_orig(cls, key)
+
+
+Timezone.__new__ = staticmethod(_tz_new)
 
 
 def zone_replay(epochs, last=0):
